@@ -71,6 +71,8 @@ class Fraction:
         return Fraction(self.num*other.den-other.num*self.den, self.den*other.den)
 
     def __mul__(self, other):
+        if isinstance(other, np.ndarray) and other.size==1:
+            other = other.item()    # an exponent handed over as a 0-d or one-element numpy array is that number
         if isinstance(other, Fraction):
             return Fraction(self.num*other.num, self.den*other.den)
         elif isinstance(other, tuple):
